@@ -157,7 +157,10 @@ def expected(gene, flavor, table):
 
 
 def _case(repo, it, S, spec):
-    gene_ids, flavor, table, seed = spec
+    gene_ids, flavor, table, seed = spec[:4]
+    # optional: the source carries multi-valued qualifiers that the writer turns into /db_xref and /gene_synonym lines
+    quals = {"db_xref": ["GeneID:2", "GeneID:10", "HGNC:7"], "gene_synonym": ["synB", "synA", "synC"], "other": ["x"]} if len(spec) > 4 else None
+    nosym = len(spec) > 5  # the genes have no symbol of their own (the writer then promotes a synonym)
     out = []
     f = repo.fn(f"{W}:collection_to_tbl")
     F = it.enum("CDSFrame")
@@ -170,14 +173,18 @@ def _case(repo, it, S, spec):
         tobjs = []
         for i, (exons, cds, f0) in enumerate(txs):
             kw = dict(transcript_id=f"{gid}.{i}", sequence_name="chr1", parent_or_seq_chunk_parent=par, transcript_type=B[biotype])
+            if quals:
+                kw["qualifiers"] = {k: list(v) for k, v in quals.items()}
+                kw["qualifiers"]["product"] = ["tRNA-Ser", "tRNA-Ala"] if biotype == "tRNA" else ["prod_b", "prod_a", "prod c"]
             if cds:
                 fr = consistent_frames(cds, strand, f0)
                 tobjs.append(mk_transcript(it, exons, S[strand], cds, [F[nm[x]] for x in fr], **kw))
             else:
                 tobjs.append(mk_transcript(it, exons, S[strand], **kw))
-        genes.append(mk_gene(it, tobjs, gene_id=gid, gene_symbol=gid + "sym", gene_type=B[biotype], sequence_name="chr1", parent_or_seq_chunk_parent=par))
+        genes.append(mk_gene(it, tobjs, gene_id=gid, gene_symbol=None if nosym else gid + "sym", gene_type=B[biotype], sequence_name="chr1", parent_or_seq_chunk_parent=par,
+                             **({"qualifiers": {k: list(v) for k, v in quals.items()}} if quals else {})))
     ac = mk_collection(it, genes, None, sequence_name="chr1", parent_or_seq_chunk_parent=par)
-    desc = f"genes {list(gene_ids)} flavor={flavor} table={table} seed={seed}"
+    desc = f"genes {list(gene_ids)} flavor={flavor} table={table} seed={seed}" + (" (multi-valued db_xref / gene_synonym qualifiers)" if quals else "") + (" (genes without a symbol)" if nosym else "")
     texts = []
     for rep in range(2):
         rnd = SeededRandom()
@@ -209,6 +216,21 @@ def _case(repo, it, S, spec):
             diff = [(a, b) for a, b in zip(dtexts[0], dtexts[1]) if a != b][:1]
             out.append((f"reproducible for a fixed seed with generated names{' (seed 0)' if seed == 0 else ''}",
                         f"{desc}: two exports with random_seed={seed} and no locus_tag_prefix / submitter_lab_name differ: {diff}", f.qual))
+    # qualifier values are sets: their iteration order changes with the hash seed of the process, the file for a fixed seed must not.
+    # The same export with every set iterated in the opposite order (an equally valid order) gives the same text.
+    from ..interp import other_hash_seed
+    with other_hash_seed():
+        it.overrides["random"] = SeededRandom()
+        handle = []
+        k, v = run(it, f, [[ac], handle], dict(translation_table=it.enum("TranslationTable")[table], locus_tag_prefix="LT",
+                                               genbank_flavor=it.enum("GenbankFlavor")[flavor], locus_tag_jump_size=5,
+                                               submitter_lab_name="lab", random_seed=seed), None)
+    if k != "ok":
+        out.append(("export", f"{desc}: collection_to_tbl raises {v} when sets are iterated in another order", f.qual))
+    elif seed is not None and list(handle) != texts[0]:
+        diff = [(a_, b_) for a_, b_ in zip(texts[0], handle) if a_ != b_][:2]
+        out.append(("reproducible for a fixed seed [iteration order of sets]", f"{desc}: the same export with every set iterated in the opposite order "
+                    f"(another hash seed) gives another file for the same random_seed: {diff}", f.qual))
     lines = texts[0]
     if not lines or lines[0] != ">Features chr1":
         out.append(("header", f"{desc}: first line {lines[:1]}; expected '>Features chr1'", f.qual))
@@ -329,6 +351,10 @@ def rk_tbl(ctx):
     specs.append((tuple(ids[:5]), "EUKARYOTIC", "STANDARD", 0))
     specs.append((tuple(ids[5:]), "PROKARYOTIC", "DEFAULT", 0))
     specs.append((tuple(ids), "EUKARYOTIC", "DEFAULT", None))
+    specs.append((("gA", "gK"), "EUKARYOTIC", "DEFAULT", 11, "qualifiers"))
+    specs.append((("gB", "gL"), "PROKARYOTIC", "DEFAULT", 0, "qualifiers"))
+    specs.append((("gA", "gK"), "EUKARYOTIC", "DEFAULT", 11, "qualifiers", "no gene symbol"))
+    specs.append((("gL", "gM"), "EUKARYOTIC", "DEFAULT", 11, "qualifiers"))
     ctx.r.floor("C17.RK", "tbl export cases", len(specs), 25)
     from ..par import pmap
     results = pmap(_runner(ctx.repo, _case), specs, min_items=4)
